@@ -12,6 +12,8 @@ def texpr(d, t):
     f = d['types'][t]['form']
     if f == 'ptr':
         return '*' + t
+    if f == 'ctxval':
+        return 'context.Context'
     return t
 
 
@@ -19,7 +21,7 @@ def zero(d, t):
     if t == 'ctx':
         return 'nil'
     f = d['types'][t]['form']
-    if f in ('ptr', 'iface'):
+    if f in ('ptr', 'iface', 'ctxval'):
         return 'nil'
     return t + '{}'
 
@@ -30,6 +32,10 @@ def emit_types(d):
         out.append('type %s = error\n' % d.get('err_alias', 'Failure'))
     for name, ty in sorted(d['types'].items()):
         form = ty['form']
+        if form == 'ctxval':
+            # a context.Context value some provider returns (it carries a term like every provided value)
+            out.append('func mk_%s(term string) context.Context { return rt.MkCtx(term) }\n' % name)
+            continue
         if form == 'iface':
             out.append('type %s interface{ GetTerm() string }\n' % name)
             if ty.get('bare'):
@@ -143,7 +149,8 @@ def emit_inject(d):
 
 
 def uses_ctx(d):
-    return any('ctx' in p.get('requires', []) for p in d['providers']) or bool(d.get('pkg_ctx'))
+    return any('ctx' in p.get('requires', []) for p in d['providers']) or bool(d.get('pkg_ctx')) \
+        or any(t.get('form') == 'ctxval' for t in d['types'].values())
 
 
 def emit_decl_file(d, pkg='main', with_types=True, with_inject=True):
